@@ -1,5 +1,6 @@
 use crate::report::{Evidence, Report};
 
+pub mod c01;
 pub mod c04;
 pub mod c12;
 pub mod c13;
@@ -7,6 +8,7 @@ pub mod c14;
 
 pub fn lookup(id: &str) -> Option<fn(&Report, bool) -> Evidence> {
     Some(match id {
+        "C01" => c01::run,
         "C04" => c04::run,
         "C12" => c12::run,
         "C13" => c13::run,
